@@ -4,6 +4,8 @@
    tails are reduced to this by C12's truncation/damage theorems), never-synced files may vanish, and
    namespace operations are atomic and ordered. *)
 From GL Require Import Store.Crash Store.CrashProofs.
+From GL Require Import Base.Bytes Codec.Crc Codec.Journal Codec.JournalSpec Store.CrashBytes Store.CrashBytesProofs
+  Gen.Consts Gen.InstJournal Gen.InstJournalOk.
 
 (* For every history of writes (with or without sync), failed journal writes, journal syncs, buffer rotations,
    flushes (table, edit, manifest sync, journal removal — each a separate crash point), transaction commits,
@@ -71,3 +73,155 @@ Example C04_obligation_seq_not_ahead_needed :
                        {| m_jnum := None; m_seq := Some 9; m_tab := [{| b_seq := 4; b_n := 6 |}] |}] |}
   = [{| b_seq := 4; b_n := 6 |}].
 Proof. vm_compute. reflexivity. Qed.
+
+(* ------------------------------------------------------------------------------------------------------------
+   Byte level.  The theorems above quantify over record-level images.  What a crash really leaves of a journal
+   or manifest file is a byte string: the bytes that were synced (a Sync happens after whole records: Next,
+   Write, Flush, Sync in writeJournal / flushManifest), any further prefix of the bytes written since — cut at
+   an arbitrary byte — and possibly zeros or garbage behind the cut.  Recovery reads it with journal.Reader in
+   tolerant mode (Store/CrashBytes.v: recover_bytes = C12's reader model jread false ck, driven like
+   recoverJournal, then the record's own decoder; records that do not decode are skipped).  Composed with C12
+   (Codec/JournalProofs.v: truncation, truncation_complete, reader_factor, jwrite_layout and the block-parser
+   lemmas), for every checksum function crc and every constant record with jparams_ok:                      *)
+
+(* Cut at any byte offset n, nothing behind the cut — unconditional.  Recovery keeps exactly firstn m recs where
+   m is the number of records whose stream lies wholly within the first n bytes: the m-th record does, and
+   every k whose stream does is <= m — in particular every synced record is kept (k <= m for a sync point
+   after k records) — and m <= length recs: one of the images the record-level model quantifies over. *)
+Theorem C04_byte_cut_is_record_image : forall crc p, jparams_ok p ->
+  forall (A : Type) (enc : A -> bytes) (dec : bytes -> option A) ck fl recs n,
+  dec_ok A enc dec recs ->
+  exists m, (m <= length recs)%nat /\
+    recover_bytes crc p A dec ck (crash_bytes crc p A enc fl recs n []) = firstn m recs /\
+    (synced_len crc p A enc fl recs m <= n)%nat /\
+    forall k, (synced_len crc p A enc fl recs k <= n)%nat -> (Nat.min k (length recs) <= m)%nat.
+Proof. exact byte_cut_is_record_image. Qed.
+Print Assumptions C04_byte_cut_is_record_image.
+
+(* Cut at any byte offset n followed by ANY bytes (zeros, garbage, stale blocks), under the computable
+   hypothesis no_forgery_tail: the block parser accepts, anywhere in the image, only a leading run of the
+   chunks that were written, and nothing after the first region it rejects.  (A cut inside a chunk's payload
+   followed by zeros is a chunk with an intact header and a changed payload: that its 32-bit checksum does not
+   match cannot be proved for an arbitrary checksum function, so zeros need the hypothesis too.) *)
+Theorem C04_byte_image_is_record_image : forall crc p, jparams_ok p ->
+  forall (A : Type) (enc : A -> bytes) (dec : bytes -> option A) ck fl recs n tail,
+  dec_ok A enc dec recs ->
+  no_forgery_tail crc p ck (map enc recs) (crash_bytes crc p A enc fl recs n tail) = true ->
+  exists m, (m <= length recs)%nat /\
+    recover_bytes crc p A dec ck (crash_bytes crc p A enc fl recs n tail) = firstn m recs /\
+    forall k, (synced_len crc p A enc fl recs k <= n)%nat -> (Nat.min k (length recs) <= m)%nat.
+Proof. exact byte_image_is_record_image. Qed.
+Print Assumptions C04_byte_image_is_record_image.
+
+(* Where a Sync can happen: when the writer model has written k records and flushed after the k-th (fl[k-1];
+   writeJournal / flushManifest call Sync right after Flush), the bytes that have reached the file are exactly
+   the stream of the first k records — the synced_len used above — and the remaining records are written from
+   that state on. *)
+Theorem C04_sync_point_bytes : forall crc p, jparams_ok p -> forall fl (rs : list bytes) k,
+  (1 <= k <= length rs)%nat -> nth (k - 1) fl false = true ->
+  exists s, wRecords crc p (w_init p) fl (firstn k rs) = WOk s /\
+            w_out s = jwrite crc p fl (firstn k rs) /\
+            wRecords crc p (w_init p) fl rs = wRecords crc p s (skipn k fl) (skipn k rs).
+Proof. exact sync_point_bytes. Qed.
+Print Assumptions C04_sync_point_bytes.
+
+(* the hypothesis is a theorem for pure cuts *)
+Theorem C04_no_forgery_tail_cut : forall crc p, jparams_ok p -> forall ck fl rs n,
+  no_forgery_tail crc p ck rs (firstn n (jwrite crc p fl rs) ++ []) = true.
+Proof. exact no_forgery_tail_cut. Qed.
+Print Assumptions C04_no_forgery_tail_cut.
+
+(* Hence every byte-level image of a reachable state (live journal, frozen journal — which may have vanished
+   if never synced — and manifest, each cut anywhere behind its synced bytes with anything behind the cut) is,
+   once read, a record-level image ... *)
+Theorem C04_byte_image_is_image : forall crc p, jparams_ok p ->
+  forall enc_batch dec_batch enc_edit dec_edit ck s b,
+  pinv s -> codecs_ok enc_batch dec_batch enc_edit dec_edit s ->
+  is_byte_image crc p enc_batch enc_edit ck s b ->
+  is_image s (abs_image crc p dec_batch dec_edit ck s b).
+Proof. exact byte_image_is_image. Qed.
+Print Assumptions C04_byte_image_is_image.
+
+(* ... and crash_safe holds with the files given as bytes.
+   ASSUMED about the manifest: its records are applied whole or not at all, as recover_bytes does (read the
+   record completely, then decode).  session.recover did not do that on the pinned tree: it decoded a record
+   while streaming its chunks into the one sessionRecord it reuses, so when a record was split over a 32 KiB
+   block boundary and the crash kept the first chunk only, the journal / next-file / sequence numbers decoded
+   from that chunk stayed in effect although the record was "skipped" — acknowledged synced writes were lost
+   (found while writing this theorem; repaired in the repo by "fix: session.recover must read a manifest
+   record completely before decoding it"; the directed scenario harness/cmd/c04/mantorn.go is the oracle).
+   With the repair the assumption is what the code does for every torn record. *)
+Theorem C04_crash_safe_bytes : forall crc p, jparams_ok p ->
+  forall enc_batch dec_batch enc_edit dec_edit ck ops b,
+  codecs_ok enc_batch dec_batch enc_edit dec_edit (prun ops) ->
+  is_byte_image crc p enc_batch enc_edit ck (prun ops) b ->
+  let r := recover_image_bytes crc p dec_batch dec_edit ck (prun ops) b in
+  (forall x, In x (p_acked (prun ops)) -> In x r) /\
+  (forall x, In x r -> In x (p_issued (prun ops))) /\
+  sorted_b r.
+Proof. exact crash_safe_bytes. Qed.
+Print Assumptions C04_crash_safe_bytes.
+
+(* Non-vacuity, by computation with the real CRC-32C, the real header size and chunk type codes and 32-byte
+   blocks: three batches whose streams end at bytes 23, 96 and 117 (the second one spans three blocks), the
+   first one synced.  Cut at byte 45 (inside the middle chunk of the second batch): the first batch is kept;
+   the same cut followed by zeros, and by garbage: the hypothesis holds and the result is the same; cut at
+   116: two batches; at 117: all three. *)
+Definition ex_batches : list batch := [{| b_seq := 1; b_n := 2 |}; {| b_seq := 3; b_n := 20 |}; {| b_seq := 23; b_n := 1 |}].
+Definition ex_dec := dec_batch_go ldb_batchHeaderLen.
+Example C04_bytes_nonvacuous :
+  jparams_ok jp_small /\ dec_ok batch enc_batch_dels ex_dec ex_batches /\
+  synced_len jcrc jp_small batch enc_batch_dels [] ex_batches 1 = 23%nat /\
+  length (jbytes jcrc jp_small batch enc_batch_dels [] ex_batches) = 117%nat /\
+  recover_bytes jcrc jp_small batch ex_dec true (crash_bytes jcrc jp_small batch enc_batch_dels [] ex_batches 45 []) = firstn 1 ex_batches /\
+  (let d := crash_bytes jcrc jp_small batch enc_batch_dels [] ex_batches 45 (repeat 0 80) in
+   no_forgery_tail jcrc jp_small true (map enc_batch_dels ex_batches) d = true /\
+   recover_bytes jcrc jp_small batch ex_dec true d = firstn 1 ex_batches) /\
+  (let d := crash_bytes jcrc jp_small batch enc_batch_dels [] ex_batches 45 [7; 200; 13; 0; 9; 1; 2; 77; 78; 79; 80; 81; 1; 0; 0; 0; 0; 3; 0; 2] in
+   no_forgery_tail jcrc jp_small true (map enc_batch_dels ex_batches) d = true /\
+   recover_bytes jcrc jp_small batch ex_dec true d = firstn 1 ex_batches) /\
+  recover_bytes jcrc jp_small batch ex_dec true (crash_bytes jcrc jp_small batch enc_batch_dels [] ex_batches 116 []) = firstn 2 ex_batches /\
+  recover_bytes jcrc jp_small batch ex_dec true (crash_bytes jcrc jp_small batch enc_batch_dels [] ex_batches 117 []) = ex_batches /\
+  (* a cut 3 bytes behind a block boundary, inside the header of a continuation chunk *)
+  recover_bytes jcrc jp_small batch ex_dec true (crash_bytes jcrc jp_small batch enc_batch_dels [] ex_batches 35 []) = firstn 1 ex_batches.
+Proof.
+  split; [exact jp_small_ok|]. split; [repeat constructor|].
+  vm_compute. repeat split; reflexivity.
+Qed.
+
+(* Non-vacuity of C04_crash_safe_bytes: a reachable state (one synced batch, one unsynced batch; the initial
+   manifest edit), a toy edit codec, and a byte-level image of it — the live journal cut 10 bytes into the
+   unsynced batch's chunk and followed by zeros, the manifest whole.  All hypotheses hold by computation;
+   recovery keeps the synced batch. *)
+Fixpoint ex_pairs (l : bytes) : list batch :=
+  match l with
+  | a :: b :: r => {| b_seq := a; b_n := b |} :: ex_pairs r
+  | _ => []
+  end.
+Definition ex_enc_edit (e : medit) : bytes :=
+  [match m_jnum e with Some j => j + 1 | None => 0 end; match m_seq e with Some q => q + 1 | None => 0 end]
+  ++ flat_map (fun b => [b_seq b; b_n b]) (m_tab e).
+Definition ex_dec_edit (r : bytes) : option medit :=
+  match r with
+  | j :: q :: t => Some {| m_jnum := if j =? 0 then None else Some (j - 1);
+                           m_seq := if q =? 0 then None else Some (q - 1); m_tab := ex_pairs t |}
+  | _ => None
+  end.
+Definition ex_state : pstate := prun [PWrite 2 true; PWrite 1 false].
+Definition ex_bimage : bimage :=
+  {| bi_live := crash_bytes jcrc jp_small batch enc_batch_dels [] (j_recs (p_live ex_state)) 33 (repeat 0 12);
+     bi_frozen := None;
+     bi_man := crash_bytes jcrc jp_small medit ex_enc_edit [] (p_man ex_state) 9 [] |}.
+Example C04_crash_safe_bytes_nonvacuous :
+  codecs_ok enc_batch_dels ex_dec ex_enc_edit ex_dec_edit ex_state /\
+  is_byte_image jcrc jp_small enc_batch_dels ex_enc_edit true ex_state ex_bimage /\
+  p_acked ex_state = [{| b_seq := 1; b_n := 2 |}] /\
+  recover_image_bytes jcrc jp_small ex_dec ex_dec_edit true ex_state ex_bimage = [{| b_seq := 1; b_n := 2 |}].
+Proof.
+  split; [|split; [|split; vm_compute; reflexivity]].
+  - split; intros x Hx; vm_compute in Hx; repeat (destruct Hx as [<-|Hx]; [vm_compute; reflexivity|]); contradiction.
+  - unfold is_byte_image. split; [|split].
+    + exists [], 33%nat, (repeat 0 12). split; [vm_compute; repeat constructor|]. split; [reflexivity|]. vm_compute. reflexivity.
+    + vm_compute. exact I.
+    + exists [], 9%nat, []. split; [vm_compute; repeat constructor|]. split; [reflexivity|]. vm_compute. reflexivity.
+Qed.
